@@ -52,11 +52,24 @@ func specKinds(t dsl.Type) int {
 			if len(t.Cases) == 1 {
 				return specKinds(t.Cases[0].Type)
 			}
-			k := 0
+			// a union as a case (through an alias): "Unions are serialized as a JSON object with a single field ... simplified
+			// when the JSON types of the cases are distinct" - written untagged it looks like any of its cases, written tagged
+			// it is an object (the null case: null)
+			k, disjoint := 0, true
 			for _, c := range t.Cases {
-				k |= specKinds(c.Type)
+				ck := specKinds(c.Type)
+				if ck&k != 0 {
+					disjoint = false
+				}
+				k |= ck
 			}
-			return k
+			if disjoint {
+				return k
+			}
+			if k&kNull != 0 {
+				return kObj | kNull
+			}
+			return kObj
 		case *dsl.Vector:
 			return kArr
 		case *dsl.Array:
@@ -120,7 +133,19 @@ func (g *gen) anyUnionCase(small bool) dsl.Type {
 			return ref(e)
 		}
 	}
-	switch verifChoose(g.label("casekind"), 9) {
+	switch verifChoose(g.label("casekind"), 11) {
+	case 9:
+		// an alias of a union (a union is a valid case only through an alias): ambiguous inside (written tagged) or not
+		second := "float32"
+		if verifChoose(g.label("inner-union-disjoint"), 2) == 1 {
+			second = "string"
+		}
+		inner := &dsl.GeneralizedType{Cases: dsl.TypeCases{&dsl.TypeCase{Tag: "int32", Type: primType("int32")}, &dsl.TypeCase{Tag: second, Type: primType(second)}}}
+		return ref(&dsl.NamedType{DefinitionMeta: g.meta(g.label("U")), Type: inner})
+	case 10:
+		// a one-element YAML sequence around a vector (`["int*"]`): a single-case wrapper around the vector
+		vec := &dsl.GeneralizedType{Cases: dsl.TypeCases{&dsl.TypeCase{Type: g.smallPrim()}}, Dimensionality: &dsl.Vector{}}
+		return &dsl.GeneralizedType{Cases: dsl.TypeCases{&dsl.TypeCase{Type: vec}}}
 	case 0:
 		return primType(verifOneOf(g.label("prim"), allPrims...))
 	case 1:
@@ -179,11 +204,19 @@ func C02Union(ncases int, withNull int, small int) {
 		seen |= k
 	}
 	verifOut("overlap", overlap)
-	py := pyndjson.VerifTypeConverter(u, NS)
+	var py, cpp string
+	msg, panicked := verifPanics(func() {
+		py = pyndjson.VerifTypeConverter(u, NS)
+		cpp = cppndjson.VerifWriteUnionConverters(u)
+	})
+	verifOut("panic", msg)
+	verifAssert("generators-do-not-panic", !panicked)
+	if panicked {
+		return
+	}
 	pySimplified := strings.HasSuffix(py, ", True)")
 	pyTagged := strings.HasSuffix(py, ", False)")
 	verifAssert("python-decision-present", pySimplified != pyTagged)
-	cpp := cppndjson.VerifWriteUnionConverters(u)
 	cppSimplified := strings.Contains(cpp, "std::visit([&j](auto const& v) {j = v;}, value);")
 	verifOut("py-simplified", pySimplified)
 	verifOut("cpp-simplified", cppSimplified)
